@@ -132,6 +132,12 @@ def rules_for(year):
     return _RULES[year]
 
 
+def required_for(year):
+    sys.path.insert(0, os.path.join(VERIF_DIR, 'spec')) if os.path.join(VERIF_DIR, 'spec') not in sys.path else None
+    import transcribed as T
+    return [r for r in T.REQUIRED if year in r[2]]
+
+
 def check_solution(res, year, sol, label, rp, base_keys=None):
     from hv import instr, statutory as st
     parsed, trans, places = rules_for(year)
@@ -164,6 +170,22 @@ def check_solution(res, year, sol, label, rp, base_keys=None):
                     res.distinct.add(rk)
                 if status_ == 'mismatch':
                     res.violation(f'C02|{year}|{form}.{line}|{r.kind}', f'{label}: {full}.{line} = {got} but its instruction "{r.text}" gives {exp:.2f} ({r.provenance})', rp)
+        if base_keys is None:
+            for form, line, years, cond, cite in required_for(year):
+                if form != base:
+                    continue
+                c = Ctx(year, sol, full, status, ev)
+                try:
+                    need = cond(c)
+                except Skip:
+                    continue
+                if not need:
+                    continue
+                res.evaluations += 1
+                res.count('rule_instances_required_line')
+                res.distinct.add(f'{year}|{form}.{line}|required')
+                if f'{full}.{line}' not in sol:
+                    res.violation(f'C02|{year}|{form}.{line}|required-line-absent', f'{label}: {full}.{line} is not in the solved return although the instructions require it here ({cite})', rp)
         if status is None:
             continue
         for (form, line), lst in trans.items():
